@@ -363,6 +363,10 @@ def binop(it, op, a, b, aug=False):
         f, i = (a, b) if isinstance(a, float) else (b, a)
         if t is ast.Mult and isinstance(i, SInt):
             return V.float_tab_mul(i, f)
+        if t is ast.Div and isinstance(a, float) and isinstance(b, SInt) and b.lo is not None and b.hi is not None and b.hi - b.lo <= 64:
+            if b.lo <= 0 <= b.hi:
+                it.oblige(b.e != 0, "division by zero", "arith")
+            return SFloatTab([(b.e == v, a / v) for v in range(b.lo, b.hi + 1) if v != 0])
         raise Unsupported("floating-point %s with a symbolic operand" % t.__name__)
     if isinstance(a, SFloatTab) or isinstance(b, SFloatTab):
         raise Unsupported("arithmetic on a symbolic double")
@@ -388,6 +392,10 @@ def binop(it, op, a, b, aug=False):
                  ast.LShift: lambda: x << y, ast.RShift: lambda: x >> y}[t]()
             return V.mk_bv(e, w, False)
         if t is ast.Div:
+            if isinstance(b, SInt) and not isinstance(a, SInt) and b.lo is not None and b.hi is not None and b.hi - b.lo <= 64:
+                if b.lo <= 0 <= b.hi:
+                    it.oblige(b.e != 0, "division by zero", "arith")
+                return SFloatTab([(b.e == v, a / v) for v in range(b.lo, b.hi + 1) if v != 0])
             raise Unsupported("true division with a symbolic operand")
     raise Unsupported("binary %s on %r and %r" % (t.__name__, a, b))
 
@@ -1189,6 +1197,139 @@ def m_str_join(it, sep, items):
     return V.mk_str(out, V.str_kind(sep))
 
 
+def _decide(it, r):
+    """bool | SBool -> bool (forks in fork mode)."""
+    if isinstance(r, bool):
+        return r
+    if it.merge:
+        raise Unsupported("string structure depends on symbolic characters in merge mode")
+    return it.branch(r.e)
+
+
+def _char_in(it, c, chars):
+    """is character code c one of the characters (str) - decided, forking if necessary"""
+    codes = [ord(x) for x in chars]
+    if isinstance(c, int):
+        return c in codes
+    hit = [v for v in codes if not (c.dom is not None and v not in c.dom) and not (c.lo is not None and v < c.lo) and not (c.hi is not None and v > c.hi)]
+    if not hit:
+        return False
+    if c.dom is not None and set(c.dom) <= set(hit):
+        return True
+    return _decide(it, mk_bool(V.in_ranges(c.e, hit)))
+
+
+def _find_sub(it, chars, sub, start=0):
+    """index of the first occurrence of the concrete/symbolic substring sub in chars at or after start, or -1 (decided)"""
+    n, m = len(chars), len(sub)
+    if m == 0:
+        return start
+    for i in range(start, n - m + 1):
+        r = V.str_eq(V.mk_str(chars[i:i + m]), V.mk_str(sub))
+        if _decide(it, r):
+            return i
+    return -1
+
+
+def m_str_partition(it, s, sep):
+    chars, kind = list(V.str_chars(s)), V.str_kind(s)
+    sc = list(V.str_chars(sep))
+    i = _find_sub(it, chars, sc)
+    if i < 0:
+        return (V.mk_str(chars, kind), V.mk_str([], kind), V.mk_str([], kind))
+    return (V.mk_str(chars[:i], kind), V.mk_str(chars[i:i + len(sc)], kind), V.mk_str(chars[i + len(sc):], kind))
+
+
+def m_str_split(it, s, sep=None, maxsplit=-1):
+    chars, kind = list(V.str_chars(s)), V.str_kind(s)
+    if sep is None:
+        # whitespace split
+        out, cur = [], []
+        i = 0
+        n = len(chars)
+        while i < n:
+            if _char_in(it, chars[i], " \t\n\r\x0b\x0c"):
+                if cur:
+                    out.append(cur)
+                    cur = []
+                    if maxsplit >= 0 and len(out) >= maxsplit:
+                        j = i
+                        while j < n and _char_in(it, chars[j], " \t\n\r\x0b\x0c"):
+                            j += 1
+                        rest = chars[j:]
+                        if rest:
+                            out.append(rest)
+                        return [V.mk_str(x, kind) for x in out]
+            else:
+                cur.append(chars[i])
+            i += 1
+        if cur:
+            out.append(cur)
+        return [V.mk_str(x, kind) for x in out]
+    sc = list(V.str_chars(sep))
+    out = []
+    start = 0
+    while maxsplit < 0 or len(out) < maxsplit:
+        i = _find_sub(it, chars, sc, start)
+        if i < 0:
+            break
+        out.append(chars[start:i])
+        start = i + len(sc)
+    out.append(chars[start:])
+    return [V.mk_str(x, kind) for x in out]
+
+
+def _strip(it, s, chars, left, right):
+    cs, kind = list(V.str_chars(s)), V.str_kind(s)
+    if chars is None:
+        chars = " \t\n\r\x0b\x0c"
+    else:
+        chars = "".join(chr(c) for c in V.str_chars(chars)) if not isinstance(chars, str) else chars
+    a, b = 0, len(cs)
+    if left:
+        while a < b and _char_in(it, cs[a], chars):
+            a += 1
+    if right:
+        while b > a and _char_in(it, cs[b - 1], chars):
+            b -= 1
+    return V.mk_str(cs[a:b], kind)
+
+
+def m_str_strip(it, s, chars=None):
+    return _strip(it, s, chars, True, True)
+
+
+def m_str_lstrip(it, s, chars=None):
+    return _strip(it, s, chars, True, False)
+
+
+def m_str_rstrip(it, s, chars=None):
+    return _strip(it, s, chars, False, True)
+
+
+def m_str_find(it, s, sub, *rest):
+    if rest:
+        raise Unsupported("find with range")
+    return _find_sub(it, list(V.str_chars(s)), list(V.str_chars(sub)))
+
+
+def re_split_braces(it, pattern, s):
+    """re.split("([{}])", s): split at every '{' or '}' keeping the separators."""
+    if pattern != "([{}])":
+        raise Unsupported("re.split with pattern %r" % (pattern,))
+    chars, kind = list(V.str_chars(s)), V.str_kind(s)
+    out, cur = [], []
+    for c in chars:
+        if _char_in(it, c, "{}"):
+            out.append(V.mk_str(cur, kind))
+            out.append(V.mk_str([c], kind))
+            cur = []
+        else:
+            cur.append(c)
+    out.append(V.mk_str(cur, kind))
+    return out
+
+
 def m_str_format(it, s, *a, **k):
     return "<formatted>"
 
@@ -1323,6 +1464,7 @@ def call_native(it, f, args, kwargs):
             raise Unsupported("native dict.%s with a symbolic key" % f.__name__)
         if not it.absg().is_true() and f.__name__ not in ("items", "keys", "values", "copy", "get"):
             raise Unsupported("container mutation %s under a symbolic guard" % f.__name__)
+        args = [dict(zip(a.keys, a.vals)) if isinstance(a, IDict) else (list(a._items) if isinstance(a, ISet) else a) for a in args]
         return f(*args, **kwargs)
     if deep_sym(list(args)) or deep_sym(kwargs):
         if isinstance(f, type) and issubclass(f, BaseException):
@@ -1599,8 +1741,20 @@ def b_filter(it, f, xs):
     return out
 
 
+import re as _re
+
+
+@builtin(_re.split)
+def b_re_split(it, pattern, s, *a, **k):
+    if isinstance(s, SStr):
+        return re_split_braces(it, pattern, s)
+    return _re.split(pattern, s, *a, **k)
+
+
 def t_int(it, x=0, *base):
     x = it.resolve(x)
+    if isinstance(x, SStr):
+        raise Unsupported("int() of a string with symbolic characters")
     if isinstance(x, V.SFP):
         return V.fp_trunc(x)
     if isinstance(x, SFloatTab):
